@@ -44,7 +44,7 @@ def main():
     demo = os.path.join(src, 'demo.diff')
     names = re.findall(r'^\+\s*(?:pub\s+)?(?:async\s+)?fn\s+(\w+)\s*\(', open(demo).read(), re.M)
     dtxt = open(demo).read()
-    tests = re.findall(r'^\+\s*#\[test\]\s*\n(?:\+\s*#\[[^\n]*\]\s*\n)*\+\s*(?:pub\s+)?(?:async\s+)?fn\s+(\w+)', dtxt, re.M) or names
+    tests = re.findall(r'^\+\s*#\[(?:tokio::)?test\]\s*\n(?:\+\s*#\[[^\n]*\]\s*\n)*\+\s*(?:pub\s+)?(?:async\s+)?fn\s+(\w+)', dtxt, re.M) or names
     meta['demo_tests'] = tests
     global WT
     WT = '/tmp/wt_confirm_' + sid.split('-')[0]
